@@ -439,3 +439,21 @@ func TestF19BridgeForwardsMethodlessMember(t *testing.T) {
 	case <-time.After(3 * time.Second):
 	}
 }
+
+// F20: "after the connection has ended Notify and Callback return ErrConnClosed" - but the
+// parameters are marshalled and validated before the connection is looked at, so on an ended
+// connection a push with scalar or unencodable parameters reports those instead.
+func TestF20ClosedConnectionBeforeBadPushParams(t *testing.T) {
+	cli, sch := rawPair()
+	s := jrpc2.NewServer(echoMux(), &jrpc2.ServerOptions{AllowPush: true}).Start(sch)
+	cli.Close()
+	s.Wait()
+	for _, p := range []any{nil, []int{1}, 5, "s", make(chan int)} {
+		if err := s.Notify(context.Background(), "n", p); err != jrpc2.ErrConnClosed {
+			t.Errorf("Notify(%T) on an ended connection: got %v, want ErrConnClosed", p, err)
+		}
+		if _, err := s.Callback(context.Background(), "c", p); err != jrpc2.ErrConnClosed {
+			t.Errorf("Callback(%T) on an ended connection: got %v, want ErrConnClosed", p, err)
+		}
+	}
+}
